@@ -154,6 +154,18 @@ def items(tier):
                 en = {"disable": False} if inv[rid]["disable"] else {}
                 for st in ((None,) if tier == "quick" else (None, "jcl")):
                     add("k1", st, [{"rule": {rid: dict(en, **{opt: v})}}], seeds=[fx] if fx else [], rc=[rid])
+    # list-valued options with a value taken from the rule's own fixture (so that the option is in play and the order of its elements matters)
+    seenm = set()
+    for rid in rules:
+        fx = configs_k1.fixture_of(rid)
+        if not fx:
+            continue
+        for name, cfg in configs_k1.matching_list_values(rid, fx):
+            opt = name.split(".", 1)[1].split("~")[0]
+            if tier == "quick" and opt in seenm:
+                continue
+            seenm.add(opt)
+            add("k1_fixture_value", None, [cfg], seeds=[fx], rc=[rid])
     # generic attributes at each level
     gen = {"disable": [True, False], "fixable": [False], "severity": ["Warning"], "phase": [2, 6], "indent_size": [4], "indent_style": ["smart_tabs"], "user_error_message": ["see the style guide"]}
     rep = [r for r in ("entity_004", "port_007", "process_016", "signal_007", "length_001") if r in inv]
